@@ -5,7 +5,7 @@ usage: tools/reseed.py [--jobs 4] [--only PREFIX] ; writes meta["recheck"] and p
 import argparse, glob, json, os, shutil, subprocess, tempfile, time
 from multiprocessing import Pool
 HERE = os.path.dirname(os.path.dirname(os.path.abspath(__file__)))
-ap = argparse.ArgumentParser(); ap.add_argument("--jobs", type=int, default=4); ap.add_argument("--only", default="")
+ap = argparse.ArgumentParser(); ap.add_argument("--jobs", type=int, default=4); ap.add_argument("--only", default=""); ap.add_argument("--seed", default="1"); ap.add_argument("--nowrite", action="store_true")
 a = ap.parse_args()
 verif_commit = subprocess.check_output(["git", "-C", HERE, "rev-parse", "--short", "HEAD"], text=True).strip()
 
@@ -20,7 +20,7 @@ def one(mp):
         subprocess.check_call(["git", "-C", "/repo", "worktree", "add", "--detach", "-f", wt, "HEAD"], stdout=subprocess.DEVNULL, stderr=subprocess.DEVNULL)
         subprocess.check_call(["git", "-C", wt, "apply", os.path.join(sd, "patch.diff")])
         pc = subprocess.run([os.path.join(HERE, "vcheck.py"), "--prop", prop, "--tier", "quick", "--shards", "8"], capture_output=True, text=True,
-                            env=dict(os.environ, VERIF_REPO=wt, VERIF_SEED="1", VERIF_NO_EVIDENCE="1", OMP_NUM_THREADS="1"), timeout=20000)
+                            env=dict(os.environ, VERIF_REPO=wt, VERIF_SEED=a.seed, VERIF_NO_EVIDENCE="1", OMP_NUM_THREADS="1"), timeout=20000)
         keys = [l.strip()[len("violated sub-claim "):].split(": ")[0] for l in pc.stdout.splitlines() if "violated sub-claim" in l]
         res = {"verif_commit": verif_commit, "check": prop, "rc": pc.returncode, "detected": pc.returncode == 1, "keys": keys[:6], "wall_s": round(time.time() - t0, 1)}
     except Exception as e:
@@ -28,8 +28,9 @@ def one(mp):
     finally:
         subprocess.run(["git", "-C", "/repo", "worktree", "remove", "--force", wt], stdout=subprocess.DEVNULL, stderr=subprocess.DEVNULL)
         shutil.rmtree(d, ignore_errors=True)
-    m["recheck"] = res
-    json.dump(m, open(mp, "w"), indent=1)
+    if not a.nowrite:
+        m["recheck"] = res
+        json.dump(m, open(mp, "w"), indent=1)
     return os.path.basename(sd), res
 
 if __name__ == "__main__":
